@@ -42,6 +42,47 @@ def selftest_hid(work):
     return "hid binding self-test ok"
 
 
+def selftest_ceremony(work):
+    """One straight-line register + authenticate behaviour: accepted as recorded, rejected when a recorded field is
+    corrupted (layer A) and flagged as drift when an event is removed (layer B)."""
+    beh = {"cfg": {"uvCap": "configured", "upCap": True, "counterOn": True, "idLen": 16, "hmac": "off", "mc": False,
+                   "storeKind": "reference", "disc": "full", "emptyAsErr": False},
+           "store": [],
+           "cers": [{"api": "ctap2", "op": op, "req": {"rp": "r1", "user": "u1", "algs": ["ES256"], "exclude": [], "excludeGiven": False,
+                                                     "allow": [], "allowGiven": False, "rk": op == "mc", "up": True, "uv": True, "pinAuth": False,
+                                                     "hs": "absent", "prf": {"given": False, "eval": "absent", "byCred": [], "byCredGiven": False},
+                                                     "cdh": "h"},
+                     "env": {"uv": {"kind": "ok", "pres": True, "verif": True, "err": 0}, "faults": [0, 0, 0], "cancelAt": -1}}
+                    for op in ("mc", "ga")]}
+    b = os.path.join(work, "cb.ndjson")
+    t = os.path.join(work, "ct.ndjson")
+    vlib.write_ndjson(b, [beh])
+    vlib.harness(["cer", "replay", "--in", b, "--out", t, "--seed", 1])
+    ev = vlib.read_ndjson(t)
+
+    def verdict(events):
+        p = os.path.join(work, "cx.ndjson")
+        vlib.write_ndjson(p, events)
+        r = vlib.tlc("CerTrace.tla", "CerTrace.cfg", work, env={"TRACE": p}, workers=1, timeout=300, depth_first=True)
+        vlib.tlc_must_complete(r, "ceremony selftest")
+        res = r.prints("RESULT")[0]
+        return {v["inv"] for v in res["viol"]}, len(res["drift"])
+
+    if verdict(ev) != (set(), 0):
+        raise vlib.ToolError("selftest: good ceremony trace not accepted: %s" % (verdict(ev),))
+    bad = json.loads(json.dumps(ev))
+    end = [e for e in bad if e["ev"] == "End"][-1]
+    end["d"]["ctr"] = {"hi": 0, "lo": 0}          # the assertion claims the counter did not move
+    v, d = verdict(bad)
+    if "C08.IncrementByOne" not in v:
+        raise vlib.ToolError("selftest: corrupted counter not detected (%s)" % v)
+    idx = [i for i, e in enumerate(ev) if e["ev"] == "Prompt"][-1]
+    v, d = verdict(ev[:idx] + ev[idx + 1:])      # the consent prompt disappears from the log
+    if not ({"C04.ConsentBeforeSignature", "C04.FlagsTruthful"} & v) or d == 0:
+        raise vlib.ToolError("selftest: removed prompt not detected (%s, drift %d)" % (v, d))
+    return "ceremony binding self-test ok"
+
+
 def run():
     try:
         dt = vlib.build_harness()
@@ -54,6 +95,11 @@ def run():
         work = os.path.join(vlib.ROOT, "work", "setup.%d" % os.getpid())
         os.makedirs(work, exist_ok=True)
         vlib.log(selftest_hid(work))
+        p = vlib.sh([vlib.BIN, "cer", "selftest"], check=False)
+        if p.returncode != 0:
+            raise vlib.ToolError("harness self-test (SHA-256 / HMAC vectors, base64url, secret-scan needles) failed:\n" + (p.stdout or ""))
+        vlib.log("harness self-test ok (hash vectors, base64url, leak-scan needles)")
+        vlib.log(selftest_ceremony(work))
         import shutil
         shutil.rmtree(work, ignore_errors=True)
         return 0
